@@ -611,6 +611,53 @@ def newline_worker(job):
     return st
 
 
+def stacked_worker(job):
+    """A quantifier directly followed by '?' in the emacs syntax (x*?, x+?, x??): whether that is read as a second quantifier or as a
+    'lazy' marker, the set of strings the pattern accepts is the same - (x*)? - and the WHOLE path has to be in it; a lazy reading
+    must not let a shorter first match decide."""
+    import re
+    k, seed = job
+    st = Stats()
+    base = common.mkscratch("C17q%d" % k)
+    try:
+        atoms = [("a", "a"), ("[ab]", "[ab]"), ("\\(ab\\)", "(?:ab)"), (".", "[^\\n]"), ("[^/]", "[^/]")]
+        tails = [("", ""), ("b", "b"), ("c*", "c*"), ("/z", "/z")]
+        paths = ["r/x", "r/xa", "r/xaa", "r/xaaa", "r/xab", "r/xabab", "r/xb", "r/xaab", "r/xac", "r/xaacc", "r/xa/z", "r/x/z", "r/xq", "r/xaq", "r/xA", "r/xAA"]
+        lines, meta = [], {}
+        i = 0
+        for af, ap in atoms:
+            for q in ("*", "+", "?"):
+                for tf, tp in tails:
+                    for lead in ([], ["-regextype", "emacs"]):
+                        for test in ("-regex", "-iregex"):
+                            i += 1
+                            if i % 2 != k % 2:
+                                continue
+                            cid = "q%d_%d" % (k, i)
+                            pat = "r/x" + af + q + "?" + tf
+                            py = "r/x(?:" + ap + q + ")?" + tp
+                            args = lead + [test, pat]
+                            meta[cid] = (pat, py, test, args)
+                            lines.append("\t".join([cid, "P", "1", str(len(args))] + [common.hx(a) for a in args] + [common.hx(p_) for p_ in paths]))
+        res = common.run_vh("match", lines, base, cwd=base, per_case_timeout=60)
+        for cid, (pat, py, test, args) in meta.items():
+            r = res.get(cid)
+            want = "".join("1" if re.fullmatch(py, p_, re.I if test == "-iregex" else 0) else "0" for p_ in paths)
+            st.inc("evaluations", len(paths))
+            st.inc("stacked_quantifier_patterns")
+            st.add("distinct", ("stacked", tuple(args)))
+            if "1" in want[1:]:
+                st.inc("stacked_quantifier_patterns_with_members_longer_than_the_shortest")
+            if r is None or r[0] != "ok" or r[2] != want:
+                bad = [p_ for p_, g, w in zip(paths, (r[2] if r and r[0] == "ok" else "?" * len(paths)), want) if g != w]
+                st.violate("regex-mismatch", None, {"args": args, "pattern": pat, "oracle_pattern": py, "paths_answered_wrongly": bad[:6],
+                                                    "expected": want, "find": r and r[:3], "shape": "quantifier directly followed by ?"},
+                           {"args": args, "paths": paths})
+    finally:
+        common.force_rmtree(base)
+    return st
+
+
 def binary_worker(job):
     """The same oracle through the real binary on a real tree: paths come from the walk, selection from -print0."""
     import os
@@ -744,6 +791,8 @@ def run(ctx):
     ng = 4 if ctx.tier == "quick" else 16
     ctx.pmap(giveup_worker, [(k, ctx.seed) for k in range(ng)])
     ctx.require("giveup_sequences", 4)
+    ctx.pmap(stacked_worker, [(k, ctx.seed) for k in range(2)])
+    ctx.require("stacked_quantifier_patterns_with_members_longer_than_the_shortest", 20)
     ctx.pmap(newline_worker, [(0, ctx.seed)])
     ctx.require("letter_free_pairs_with_members", 10)
     ctx.pmap(long_path_worker, [(k, ctx.seed) for k in range(4 if ctx.tier == "quick" else 16)])
